@@ -61,8 +61,8 @@ PLAN = {
         dict(label="exh", kind="bfs", cfg="Chart_exh.cfg", timeout=1200, workers=12, phase=0),
         dict(label="def", kind="bfs", cfg="Chart_def.cfg", timeout=900, workers=6, phase=1),
         dict(label="def2", kind="bfs", cfg="Chart_def2.cfg", timeout=900, workers=2, phase=1),
-        dict(label="sim", kind="sim", cfg="Chart_sim.cfg", procs=4, num=400, depth=12, timeout=1500, phase=2),
-        dict(label="simL", kind="sim", cfg="Chart_simL.cfg", procs=4, num=120, depth=13, timeout=1800, phase=2),
+        dict(label="sim", kind="sim", cfg="Chart_sim.cfg", procs=4, num=300, depth=12, timeout=1500, phase=2),
+        dict(label="simL", kind="sim", cfg="Chart_simL.cfg", procs=4, num=80, depth=13, timeout=1800, phase=2),
         # every valid chart with <= 4 nodes (depth <= 4): theorems only, no case emission
         dict(label="exh4", kind="bfs", cfg="Chart_exh4.cfg", timeout=3000, workers=14, emit=False, phase=3),
     ],
